@@ -117,8 +117,9 @@ def main(tier: str) -> int:
 
     codes = C.coq_eval_codes("c10", HEADER, "node * c10_obs", "c10_code", cases, shard=500)
     corr_fail = [m for c, m in zip(codes, meta) if c & 1]
-    new_viol = [m for c, m in zip(codes, meta) if (c & 2) and not (c & 4)]
-    kf = [m for c, m in zip(codes, meta) if (c & 2) and (c & 4)]
+    # a spec failure is 'known' only inside a listed class AND when it is the failure the model predicts
+    new_viol = [m for c, m in zip(codes, meta) if (c & 2) and (not (c & 4) or (c & 1))]
+    kf = [m for c, m in zip(codes, meta) if (c & 2) and (c & 4) and not (c & 1)]
 
     for m in new_viol[:5]:
         V.violation({"property": PROP, "why": "spec checker check_C10 rejects rattr's spelling; expression outside the listed finding class",
